@@ -150,6 +150,11 @@ class C13Run(E2Run):
             hn = n.config.hostname
             m = self.model[hn]
             sm = n.software_manager
+            if n.operating_state.name in ("OFF", "BOOTING"):
+                # reaching OFF (also in passing, during a reset) stops services and closes applications
+                up = sorted(name for name, sw in sm.software.items() if sw.operating_state.name in ("RUNNING", "PAUSED"))
+                if up:
+                    raise Violation("C13", "software-up-while-node-down", f"{when}: {hn} is {n.operating_state.name} but {up} are still RUNNING / PAUSED", sig="software-up-while-node-down", detail={"software": up})
             for name in list(m):
                 if name not in sm.software:
                     if not (cause == "request" and target == (hn, name) and verb in ("uninstall", "install")):
